@@ -383,7 +383,7 @@ class FnEmitter:
         else:
             # clauses proved in the function's own unit that callers do not need (not exported to stubs,
             # so that units which only call the function need not include the vocabulary they use)
-            sigblock = sigblock + block_text('sig-prove-extra')
+            sigblock = sigblock + block_text('sig-prove-extra') + block_text('sig-decreases')
         edits.append((toks[bopen].start, toks[bopen].start, ('\n', sigblock, ''), 'block'))
 
         if self.mode == 'stub':
